@@ -65,6 +65,16 @@ def trace(P, crc=False, stats=False, minmax=False, rep=True, deff=True, codec=0,
         heap0[("pw", wo[member] + bo["size"])] = SIZES[tag] if on else 0
     heap0[("pw", wo["page_buffer"] + bo["data"])] = 0
     heap0[("pw", wo["page_buffer"] + bo["size"])] = 99       # stale bytes of the previous page
+    # any further buffer the writer owns (a scratch buffer kept from page to page) still holds the previous page as well
+    for f in P.record("carquet_page_writer")["fields"]:
+        if "carquet_buffer" in (f.get("t") or "") and "*" not in f["t"] and f["n"] not in ("rep_levels_buffer", "def_levels_buffer", "values_buffer", "page_buffer") \
+                and f.get("off") is not None:
+            o = f["off"] // 8
+            heap0[("pw", o + bo["data"])] = Ptr("scratch_" + f["n"], 0, 1)
+            heap0[("pw", o + bo["size"])] = 77
+            heap0[("pw", o + bo["capacity"])] = 1 << 20
+            if "owns_data" in bo:
+                heap0[("pw", o + bo["owns_data"])] = 1
     heap0[("pw", wo["compression"])] = codec
     heap0[("pw", wo["encoding"])] = encoding
     heap0[("pw", wo["num_values"])] = num_values
